@@ -308,6 +308,31 @@ func bvLit(n *big.Int, w int) string {
 
 func bvLitU(n uint64, w int) string { return bvLit(new(big.Int).SetUint64(n), w) }
 
+func litInt(s string) (*big.Int, bool) {
+	if s == "" {
+		return nil, false
+	}
+	neg := false
+	t := s
+	if strings.HasPrefix(t, "(- ") && strings.HasSuffix(t, ")") {
+		neg = true
+		t = t[3 : len(t)-1]
+	}
+	for _, c := range t {
+		if c < '0' || c > '9' {
+			return nil, false
+		}
+	}
+	n, ok := new(big.Int).SetString(t, 10)
+	if !ok {
+		return nil, false
+	}
+	if neg {
+		n.Neg(n)
+	}
+	return n, true
+}
+
 func add(a, b string) string {
 	if b == "0" {
 		return a
@@ -315,11 +340,63 @@ func add(a, b string) string {
 	if a == "0" {
 		return b
 	}
+	x, ok1 := litInt(a)
+	y, ok2 := litInt(b)
+	if ok1 && ok2 {
+		return bigIntLit(new(big.Int).Add(x, y))
+	}
+	// (+ (+ t c1) c2) -> (+ t c1+c2)
+	if ok2 && strings.HasPrefix(a, "(+ ") {
+		if i := strings.LastIndex(a, " "); i > 0 {
+			if c1, ok := litInt(a[i+1 : len(a)-1]); ok && balancedInner(a[3:i]) {
+				return add(a[3:i], bigIntLit(new(big.Int).Add(c1, y)))
+			}
+		}
+	}
 	return app("+", a, b)
 }
+
+func balancedInner(t string) bool {
+	depth := 0
+	inq := false
+	for i := 0; i < len(t); i++ {
+		switch t[i] {
+		case '|':
+			inq = !inq
+		case '(':
+			if !inq {
+				depth++
+			}
+		case ')':
+			if !inq {
+				depth--
+				if depth < 0 {
+					return false
+				}
+			}
+		case ' ':
+			if !inq && depth == 0 {
+				return false
+			}
+		}
+	}
+	return depth == 0 && !inq
+}
+
 func sub(a, b string) string {
 	if b == "0" {
 		return a
+	}
+	x, ok1 := litInt(a)
+	y, ok2 := litInt(b)
+	if ok1 && ok2 {
+		return bigIntLit(new(big.Int).Sub(x, y))
+	}
+	if a == b {
+		return "0"
+	}
+	if ok2 {
+		return add(a, bigIntLit(new(big.Int).Neg(y)))
 	}
 	return app("-", a, b)
 }
@@ -329,6 +406,14 @@ func mul(a, b string) string {
 	}
 	if b == "1" {
 		return a
+	}
+	x, ok1 := litInt(a)
+	y, ok2 := litInt(b)
+	if ok1 && ok2 {
+		return bigIntLit(new(big.Int).Mul(x, y))
+	}
+	if (ok1 && x.Sign() == 0) || (ok2 && y.Sign() == 0) {
+		return "0"
 	}
 	return app("*", a, b)
 }
